@@ -518,8 +518,9 @@ pub fn tx_monitors(h: &Hist, ms: &mut MonState, b: &Obs, line: &str, res: &str, 
     // C03: every stableswap pool a route went through: the exact invariant computed from its reported reserves did not decrease
     if ok && tx.contract == "pm" && tx.kind == "route" {
         let n: usize = tx.args[0].parse().unwrap_or(0);
-        let mut ids: Vec<String> = (0..n).filter_map(|k| tx.args.get(3 + 3 * k).cloned()).collect();
-        ids.sort(); ids.dedup();
+        let all: Vec<String> = (0..n).filter_map(|k| tx.args.get(3 + 3 * k).cloned()).collect();
+        // pools the route went through exactly once (for a pool visited twice only the net change is observable)
+        let ids: Vec<String> = all.iter().filter(|x| all.iter().filter(|y| y == x).count() == 1).cloned().collect();
         for id in ids.iter() {
             if let (Some(pb), Some(pa)) = (pool(b, id), pool(a, id)) {
                 if !matches!(pb.pool_type, PoolType::ConstantProduct) {
